@@ -428,12 +428,7 @@ func checkDiagnostics(c *Ctx, f *FC) {
 	} else {
 		r.Undecided("C16.c", "transpileOne", "definition", "fc", "anchor function not found")
 	}
-	c.expectNF(f, "C16.c", "OnParseError", []string{
-		`if((recover() != nil), seq[fmt.Printf(<str>, p0, recover()); os.Exit(<_>)], seq[])`,
-		`if((recover() != nil), seq[fmt.Println(<_>); os.Exit(<_>)], seq[])`,
-		`if((recover() != nil), seq[fmt.Fprintf(var:os.Stderr, <str>, p0, recover()); os.Exit(<_>)], seq[])`,
-		`if((recover() != nil), seq[fmt.Fprintf(var:os.Stdout, <str>, p0, recover()); os.Exit(<_>)], seq[])`,
-	}, "the recovered branch prints the diagnostic and exits")
+	checkOnParseErrorForm(c, f, "C16.c")
 	// recover callers, os.Exit arguments, go statements
 	var recoverers, exits []string
 	badExit := ""
@@ -747,4 +742,15 @@ func goStmtCount(f *FC) int {
 		n += countConcurrency(file)
 	}
 	return n
+}
+
+
+// checkOnParseErrorForm: the recovered branch prints the file name and the recovered value, unmodified, and exits.
+func checkOnParseErrorForm(c *Ctx, f *FC, rule string) {
+	c.expectNF(f, rule, "OnParseError", []string{
+		`if((recover() != nil), seq[fmt.Printf(<str>, p0, recover()); os.Exit(<_>)], seq[])`,
+		`if((recover() != nil), seq[fmt.Println(<_>); os.Exit(<_>)], seq[])`,
+		`if((recover() != nil), seq[fmt.Fprintf(var:os.Stderr, <str>, p0, recover()); os.Exit(<_>)], seq[])`,
+		`if((recover() != nil), seq[fmt.Fprintf(var:os.Stdout, <str>, p0, recover()); os.Exit(<_>)], seq[])`,
+	}, "the recovered branch prints the diagnostic (file name and the recovered value as it is) and exits")
 }
